@@ -143,7 +143,10 @@ class StreamModel:
     TOMB_TESTS = ("HEAD.is_tombstone()", "(HEAD.key.value_type == ValueType::Tombstone)")
     SAME_KEY = "!(PEEKED.key.user_key > HEAD.key.user_key)"
     NEXT_KEY = "(PEEKED.key.user_key > HEAD.key.user_key)"
-    BELOW_WATERMARK = "(PEEKED.key.seqno < self.gc_seqno_threshold)"
+    # derived from the specification, not from the code: the older versions of a key may go only if the entry that
+    # shadows them (HEAD) is visible to every snapshot above the watermark W, i.e. HEAD.seqno <= W  (finding F10: the
+    # code used to test the *older* entry, PEEKED.seqno < W)
+    BELOW_WATERMARK = "(HEAD.key.seqno <= self.gc_seqno_threshold)"
 
     def classify_discard(self, site):
         g = self.guards(site)
